@@ -41,4 +41,83 @@ theorem iter_bounds_from_source (author value : Bytes) (kind letter since «unti
   · exact (k _ _).2.2.2.2.2
   · exact (k _ _).2.2.2.2.2
 
+theorem mem_flatten_filterMap_congr {α β : Type} (f g : α → Option (List β)) (l : List α) (x : β)
+    (h : ∀ t ∈ l, (∃ ys, f t = some ys ∧ x ∈ ys) ↔ (∃ ys, g t = some ys ∧ x ∈ ys)) :
+    x ∈ (l.filterMap f).flatten ↔ x ∈ (l.filterMap g).flatten := by
+  simp only [List.mem_flatten, List.mem_filterMap]
+  constructor
+  · rintro ⟨ys, ⟨t, ht, hf⟩, hx⟩
+    obtain ⟨zs, hg, hz⟩ := (h t ht).1 ⟨ys, hf, hx⟩
+    exact ⟨zs, ⟨t, ht, hg⟩, hz⟩
+  · rintro ⟨ys, ⟨t, ht, hg⟩, hx⟩
+    obtain ⟨zs, hf, hz⟩ := (h t ht).2 ⟨ys, hg, hx⟩
+    exact ⟨zs, ⟨t, ht, hf⟩, hz⟩
+
+/-- what `Lmdb::index` puts and what `Lmdb::deindex` deletes for an event, as the source spells them today (the fixed entries in
+their order, the loop over the tags with its guards "a name, of one byte, and a value", the three tag entries in their order), are
+the same (table, key) pairs - the ones the model's `eventKeys` lists and the key dump `KYS` is compared with -/
+theorem index_walk_from_source (e : EventRec) (tk : String × Bytes) :
+    (tk ∈ Src.indexKeys e ↔ tk ∈ eventKeys e) ∧ (tk ∈ Src.deindexKeys e ↔ tk ∈ eventKeys e) := by
+  have k := fun (author value id : Bytes) (kind letter t : Nat) => keys_from_source author value id kind letter t
+  constructor
+  · unfold Src.indexKeys eventKeys
+    rw [List.mem_append, List.mem_append]
+    apply or_congr
+    · simp only [List.mem_cons, List.not_mem_nil, or_false]
+      rw [(k e.pubkey [] e.id e.kind 0 e.createdAt).1, (k e.pubkey [] e.id e.kind 0 e.createdAt).2.1, (k e.pubkey [] e.id e.kind 0 e.createdAt).2.2.1]
+      constructor
+      · rintro (h | h | h)
+        · exact Or.inl h
+        · exact Or.inr (Or.inr h)
+        · exact Or.inr (Or.inl h)
+      · rintro (h | h | h)
+        · exact Or.inl h
+        · exact Or.inr (Or.inr h)
+        · exact Or.inr (Or.inl h)
+    · apply mem_flatten_filterMap_congr
+      intro t _
+      rcases t with _ | ⟨n, _ | ⟨v, rest⟩⟩
+      · simp
+      · rcases n with _ | ⟨l, _ | ⟨l2, n'⟩⟩ <;> simp
+      · rcases n with _ | ⟨l, _ | ⟨l2, n'⟩⟩
+        · simp
+        · simp only [Option.some.injEq, exists_eq_left', List.mem_cons, List.not_mem_nil, or_false]
+          rw [(k e.pubkey v e.id e.kind l e.createdAt).2.2.2.1, (k e.pubkey v e.id e.kind l e.createdAt).2.2.2.2.1,
+            (k e.pubkey v e.id e.kind l e.createdAt).2.2.2.2.2]
+        · simp
+  · unfold Src.deindexKeys eventKeys
+    rw [List.mem_append, List.mem_append]
+    apply or_congr
+    · simp only [List.mem_cons, List.not_mem_nil, or_false]
+      rw [(k e.pubkey [] e.id e.kind 0 e.createdAt).1, (k e.pubkey [] e.id e.kind 0 e.createdAt).2.1, (k e.pubkey [] e.id e.kind 0 e.createdAt).2.2.1]
+      constructor
+      · rintro (h | h | h)
+        · exact Or.inr (Or.inl h)
+        · exact Or.inl h
+        · exact Or.inr (Or.inr h)
+      · rintro (h | h | h)
+        · exact Or.inr (Or.inl h)
+        · exact Or.inl h
+        · exact Or.inr (Or.inr h)
+    · apply mem_flatten_filterMap_congr
+      intro t _
+      rcases t with _ | ⟨n, _ | ⟨v, rest⟩⟩
+      · simp
+      · rcases n with _ | ⟨l, _ | ⟨l2, n'⟩⟩ <;> simp
+      · rcases n with _ | ⟨l, _ | ⟨l2, n'⟩⟩
+        · simp
+        · simp only [Option.some.injEq, exists_eq_left', List.mem_cons, List.not_mem_nil, or_false]
+          rw [(k e.pubkey v e.id e.kind l e.createdAt).2.2.2.1, (k e.pubkey v e.id e.kind l e.createdAt).2.2.2.2.1,
+            (k e.pubkey v e.id e.kind l e.createdAt).2.2.2.2.2]
+          constructor
+          · rintro (h | h | h)
+            · exact Or.inr (Or.inl h)
+            · exact Or.inr (Or.inr h)
+            · exact Or.inl h
+          · rintro (h | h | h)
+            · exact Or.inr (Or.inr h)
+            · exact Or.inl h
+            · exact Or.inr (Or.inl h)
+        · simp
+
 end Pocket
